@@ -78,6 +78,9 @@ def gen_case(rng: random.Random, tier: str, index: int) -> dict:
         "close_old_at": rng.randrange(0, 2 * T + 5),
         "n2": rng.randrange(0, 2 * T + 5),
         "fail_in_second": rng.random() < 0.1,
+        # both calls inside one `with` block (the first one may have failed
+        # and been caught by the caller, or been abandoned early)
+        "same_ctx": rng.random() < 0.4,
         "policy": policy,
         "policy_param": rng.randrange(0, T + 1) if policy == "starve" else
         rng.choice([1, 2, 3]),
@@ -94,6 +97,33 @@ def gen_case(rng: random.Random, tier: str, index: int) -> dict:
 
 class _Boom(Exception):
     pass
+
+
+class _Entered:
+    """`with pool:` whose block is left open (the caller catches the error of
+    the first call inside the block and goes on using the pool)."""
+
+    def __init__(self, pool):
+        self.pool = pool
+
+    def __enter__(self):
+        return self.pool.__enter__()
+
+    def __exit__(self, *exc):
+        return False
+
+
+class _Exiting:
+    """The rest of the `with pool:` block opened by `_Entered`."""
+
+    def __init__(self, pool):
+        self.pool = pool
+
+    def __enter__(self):
+        return self.pool
+
+    def __exit__(self, *exc):
+        return self.pool.__exit__(*exc)
 
 
 def run_case(case: dict) -> dict:
@@ -160,8 +190,13 @@ def run_case(case: dict) -> dict:
             other: list = []
             try:
                 old_iter = None
+                # (only after a call that ran to its end or failed: starting
+                # a call while an abandoned one is still active is refused by
+                # an assertion, as documented)
+                same_ctx = bool(case.get("same_ctx") and case["reuse"] and
+                                not p2 and case["mode"] == "full" and n >= 0)
                 if not p2:
-                    with pool:
+                    with (_Entered(pool) if same_ctx else pool):
                         gen1 = pool.imap_unordered(f, source(n))
                         if case.get("keep_old_iter"):
                             old_iter = gen1
@@ -249,9 +284,15 @@ def run_case(case: dict) -> dict:
                     not relevant_fail):
                 fail("short_pass", f"wanted {case['p']} got {len(results)}")
             # ---------------------------------------------- reuse
+            if same_ctx and not out["ok"]:
+                pool.__exit__(None, None, None)
             if case["reuse"] and out["ok"]:
                 try:
-                    with pool:
+                    if same_ctx:
+                        probes["reuse_in_same_context"] += 1
+                        if consumer_exc is not None:
+                            probes["reuse_in_same_context_after_failure"] += 1
+                    with (_Exiting(pool) if same_ctx else pool):
                         for r in pool.imap_unordered(f2, source(case["n2"])):
                             second.append(r)
                             sc.log("result2", r)
@@ -345,6 +386,8 @@ def shrink(case: dict):
 
     if case["reuse"]:
         yield variant(reuse=False)
+    if case.get("same_ctx"):
+        yield variant(same_ctx=False)
     if case.get("pool2"):
         yield variant(pool2=None)
     if case["line"]:
@@ -384,7 +427,9 @@ def reach(agg: dict) -> list[str]:
     p = agg["probes"]
     if agg["evaluations"] < 200:
         need.append("fewer than 200 runs")
-    for name in ("old_iterator_closed_during_reuse",
+    for name in ("reuse_in_same_context",
+                 "reuse_in_same_context_after_failure",
+                 "old_iterator_closed_during_reuse",
                  "prefill_contained_sentinels", "early_exit", "pool_reused",
                  "two_pools_interleaved",
                  "n_between_T_and_prefill"):
